@@ -177,6 +177,27 @@ fn c20_group(directed: bool, multi: bool, self_loops: bool, s: u8, group: u8) {
             vassert!(uses_error_channel(&r), "returned");
             core::mem::forget((r, tg, edges));
         }
+        9 => {
+            // weighted searches with every input constant (the engine then acts as a bounded executor of
+            // the real BinaryHeap code): a zero-weight self-loop must not keep the search alive, and a
+            // tie with with_paths = false must not touch the (empty) path table
+            let edges = vec![(2u8, 0u8, 1.0f64), (0, 1, 1.0), (2, 1, 2.0), (0, 0, 0.0)];
+            let specs = GraphSpecs { self_loops: true, ..permissive(directed, false) };
+            let tg = build_direct(specs, &[(2, None), (0, None), (1, None)], &edges);
+            let a = shortest_path::dijkstra::single_source(&tg, true, Nm(2), None, None, false, false);
+            vassert!(uses_error_channel(&a), "returned");
+            core::mem::forget(a);
+            if s == 5 {
+                let b = shortest_path::dijkstra::single_source(&tg, true, Nm(2), Some(Nm(1)), None, false, false);
+                vassert!(uses_error_channel(&b), "returned");
+                core::mem::forget(b);
+            } else {
+                let c = shortest_path::dijkstra::single_source(&tg, true, Nm(2), None, Some(2.0), false, false);
+                vassert!(uses_error_channel(&c), "returned");
+                core::mem::forget(c);
+            }
+            core::mem::forget((tg, edges));
+        }
         _ => {
             // eigenvector centrality (one iteration is enough to reach every lookup)
             let a = centrality::eigenvector::eigenvector_centrality(&g, false, Some(1), None);
